@@ -69,7 +69,7 @@ def run(chk):
     # ---- random bodies in every position ----
     n = chk.scale(400, 6000)
     for i in range(n):
-        pos = rng.choice(["init", "init2", "ptrs", "call", "asm", "char", "multi", "splice", "call2", "calls", "expr2", "ptrs-mixed"])
+        pos = rng.choice(["init", "init2", "ptrs", "call", "asm", "char", "multi", "splice", "call2", "calls", "expr2", "ptrs-mixed", "sized"])
         b1, c1 = rand_body(rng)
         b2, c2 = rand_body(rng)
         deco = rng.choice(["", " // tail \"q", " /* c \" */", ""])
@@ -107,6 +107,10 @@ def run(chk):
             src = ('const char other[2] = {1, 2};\nconst char *t[%d] = {%s};%s\nchar *p;\nvoid main() { p = "%s"; }\n'
                    % (len(ents), ", ".join(e[0] for e in ents), deco, b3))
             want = {"*": [e[1] for e in ents if e[0] != "other"] + [c3 + [0]], "table": ("t", [e[1] for e in ents])}
+        elif pos == "sized":       # an explicit bound: the literal is stored whole, with its NUL, whatever the bound says
+            n = max(1, len(c1) + rng.choice([-2, -1, 0, 1, 1, 3]))
+            src = 'const char s[%d] = "%s";%s\nconst char after[2] = {7, 8};\nvoid main() {}\n' % (n, b1, deco)
+            want = {"s": c1 + [0]}
         elif pos == "multi":
             src = '#define MAX 9\nconst char a[] = "%s"; const char b[] = "%s";%s\nvoid main() {}\n' % (b1, b2, deco)
             want = {"a": c1 + [0], "b": c2 + [0]}
